@@ -171,6 +171,16 @@ class G:
                 if v in ('len', 'max'):
                     self.kinds.add('shadow_builtin')
                 stmts.append(['assign', v, r.choice([gen.num_tree(r), ['str', 'top-' + v], ['list', [['num', '1']]], ['none']])])
+        if r.random() < 0.15:
+            # host / top-level / parameter bindings win over builtins of the same name whatever their signature
+            bn = r.choice(['len', 'sum', 'pop', 'get', 'str', 'keys'])
+            self.kinds.add('shadow_builtin')
+            if r.random() < 0.5:
+                stmts.append(['assign', bn, ['lambda', ['q1', 'q2', 'q3'], ['list', [['name', 'q1'], ['name', 'q3']]]]])
+                stmts.append(['assign', 'r1', ['call', bn, [['num', '1'], ['num', '2'], ['num', '3']], 'plain']])
+            else:
+                stmts.append(['assign', 'hh', ['lambda', [bn, 'q2'], ['call', bn, [['name', 'q2'], ['num', '0'], ['num', '1'], ['num', '2']], 'plain']]])
+                stmts.append(['assign', 'r2', ['call', 'hh', [['lambda', ['a1', 'a2', 'a3', 'a4'], ['name', 'a4']], ['num', '5']], 'plain']])
         for _ in range(r.randint(1, 3)):
             u = self.use(fname, n)
             x = r.random()
